@@ -38,7 +38,8 @@ EXTENDS Integers, Sequences, FiniteSets, TLC, Json, IOUtils, XData
 CONSTANTS MaxCmd, MaxBps, MaxBk,
           Lifecycle,    \* TRUE: histories may restart and quit (C11)
           Signals,      \* TRUE: histories may send SIGUSR1 to the stopped program
-          Extras        \* TRUE: histories may inject calls and arm a watchpoint (C02)
+          Extras,       \* TRUE: histories may inject calls and arm a watchpoint (C02)
+          Frames        \* TRUE: histories may select a caller's frame before a command (C03, C05)
 
 N == Len(X)
 Exited == N + 1
